@@ -42,7 +42,7 @@ META = {
     "assumptions": [
         "dependency functions are generated real functions recording open/close; taskiq_dependencies 1.5.7 is the pinned resolver (outside /repo)",
     ],
-    "required_counters": ["scenarios", "teardowns_checked"],
+    "required_counters": ["wiring_cases", "scenarios", "teardowns_checked"],
     "bounds": {
         "quick": {"shapes": 9, "styles": "all assignments for <=2 nodes, 3-node shapes over {gen, agen, acm, plain}", "concurrent": "L0"},
         "thorough": {"shapes": 9, "styles": "all assignments", "concurrent": "L0 + L1"},
@@ -216,6 +216,10 @@ def scenarios(tier: str) -> List[Dict[str, Any]]:
 
 
 def shards(tier: str, seed: int) -> List[Any]:
+    return _shards(tier, seed) + [[{"wiring": "C12"}]]
+
+
+def _shards(tier: str, seed: int) -> List[Any]:
     scs = scenarios(tier)
     if tier == "thorough":
         mark_stateless(scs, 6, 12)
@@ -230,6 +234,12 @@ def _per(sc: Dict[str, Any], res: Any, acc: Acc) -> None:
 
 
 def run_shard(shard: List[Dict[str, Any]]) -> Dict[str, Any]:
+    if shard and shard[0].get("wiring"):
+        from mc.cli_wiring import check_worker_wiring
+
+        acc = Acc()
+        check_worker_wiring("C12", acc)
+        return acc.as_dict()
     return run_scenarios("C12", shard, C12World, per_scenario=_per).as_dict()
 
 
